@@ -197,6 +197,39 @@ struct Engine
         es.push_back(random_elem(fixed));
         es.push_back(variant(es[4], nontrivial));
         while (es.size() < n_elems) es.push_back(random_elem(fixed));
+        // Lists with FixedSize parameters: four more logical elements whose fixed sizes differ in one parameter (0, shorter,
+        // longer), two of them prefix-related to pool elements. They live in vectors of their own (a vector has one set of
+        // fixed sizes) and are compared with everything else: equal field sizes are part of equality, and the relational
+        // operators have to stay consistent between operands of different sizes.
+        std::vector<size_t> fixed2 = fixed;
+        size_t n_other = 0;
+        if constexpr (Cfg::N_FIXED != 0)
+        {
+            const size_t which = static_cast<size_t>(rng.below(Cfg::N_FIXED));
+            size_t now = fixed[which];
+            for (int tries = 0; tries < 16 && now == fixed[which]; ++tries)
+                now = rng.chance(1, 3) ? 0 : rng.chance(1, 2) ? fixed[which] + 1 : (fixed[which] ? fixed[which] - 1 : 2);
+            fixed2[which] = now;
+            // index of that parameter among all fields
+            size_t field = 0, fi = 0;
+            for (size_t k = 0; k < NF; ++k)
+                if (Cfg::fields()[k].kind == 'F' && fi++ == which) field = k;
+            auto resized = [&](const MElem& e)
+            {
+                MElem r = e;
+                while (r.f[field].size() > now) r.f[field].pop_back();
+                while (r.f[field].size() < now) r.f[field].push_back(G::project_field(field, domain_value(field)));
+                return r;
+            };
+            es.push_back(resized(es[0]));
+            es.push_back(resized(es[4]));
+            es.push_back(variant(es[n_elems], nontrivial));
+            es.push_back(random_elem(fixed2));
+            n_other = 4;
+            nontrivial = true;
+        }
+        const size_t n_same = n_elems;
+        (void)n_other;
         for (auto& e : es)
         {
             trace.push_back(elem_str(e));
@@ -205,9 +238,32 @@ struct Engine
         if (nontrivial) ++nontrivial_pairs;
         const int j1 = static_cast<int>((seed + static_cast<uint64_t>(cno)) % 4), j2 = (j1 + 1 + static_cast<int>(cno % 3)) % 4, j3 = (j2 + 1) % 4;
         // ---- physical representations
-        VecA a1 = build<VecA>(es, fixed, 0, 0, 1, j1);
-        VecA a2 = build<VecA>(es, fixed, 3, 40, 2, j2);
-        VecB b = build<VecB>(es, fixed, 1, 8, 0, j3);
+        const std::vector<MElem> es_same(es.begin(), es.begin() + static_cast<std::ptrdiff_t>(n_same)), es_other(es.begin() + static_cast<std::ptrdiff_t>(n_same), es.end());
+        VecA a1s = build<VecA>(es_same, fixed, 0, 0, 1, j1);
+        VecA a2s = build<VecA>(es_same, fixed, 3, 40, 2, j2);
+        VecB bs = build<VecB>(es_same, fixed, 1, 8, 0, j3);
+        VecA a1o = build<VecA>(es_other, fixed2, 1, 16, 2, j3);
+        VecA a2o = build<VecA>(es_other, fixed2, 0, 0, 1, j1);
+        VecB bo = build<VecB>(es_other, fixed2, 2, 0, 0, j2);
+        // element i of the pool in each physical representation
+        struct View
+        {
+            VecA& same;
+            VecA& other;
+            size_t n_same;
+            auto operator[](size_t i) { return i < n_same ? same[i] : other[i - n_same]; }
+            auto operator[](size_t i) const { return i < n_same ? std::as_const(same)[i] : std::as_const(other)[i - n_same]; }
+        };
+        struct ViewB
+        {
+            VecB& same;
+            VecB& other;
+            size_t n_same;
+            auto operator[](size_t i) { return i < n_same ? same[i] : other[i - n_same]; }
+            auto operator[](size_t i) const { return i < n_same ? std::as_const(same)[i] : std::as_const(other)[i - n_same]; }
+        };
+        View a1{a1s, a1o, n_same}, a2{a2s, a2o, n_same};
+        ViewB b{bs, bo, n_same};
         std::vector<ElemA> ea;
         std::vector<ElemB> eb;
         ea.reserve(es.size());
@@ -216,9 +272,9 @@ struct Engine
         for (size_t i = 0; i < es.size(); ++i) ea.emplace_back(std::as_const(a1)[i], typename ElemA::allocator_type{(int(i) % 2) + 1});
         ledger().junk = j1;
         for (size_t i = 0; i < es.size(); ++i) eb.emplace_back(std::as_const(b)[i]);
-        const VecA& ca1 = a1;
-        const VecA& ca2 = a2;
-        const VecB& cb = b;
+        const View& ca1 = a1;
+        const View& ca2 = a2;
+        const ViewB& cb = b;
         // ---- element level: all ordered pairs in every operand-kind combination
         const size_t N = es.size();
         std::vector<unsigned> R(N * N, 0);
@@ -290,6 +346,7 @@ struct Engine
         // ---- vector level
         set_ctx(cno, 2, "compare_vectors", "pool", "C13,C14,C02", "");
         std::vector<std::vector<size_t>> lv = {{}, {0}, {0, 2}, {0, 2, 4}, {1}, {1, 2}, {2}, {0, 3}, {4, 5}, {5}};
+        if (n_other) lv.insert(lv.end(), {{n_same}, {n_same, n_same + 2}, {n_same + 1}, {n_same + 3, n_same}});
         const size_t L = lv.size();
         std::vector<VecA> va1, va2;
         std::vector<VecB> vb;
@@ -300,9 +357,10 @@ struct Engine
         {
             std::vector<MElem> seq;
             for (size_t idx : lv[v]) seq.push_back(es[idx]);
-            va1.push_back(build<VecA>(seq, fixed, 0, 0, 1, j2));
-            va2.push_back(build<VecA>(seq, fixed, 2 + v % 3, 24, 2, j3));
-            vb.push_back(build<VecB>(seq, fixed, v % 2, 0, 0, j1));
+            const auto& fx = (!lv[v].empty() && lv[v][0] >= n_same) ? fixed2 : fixed;
+            va1.push_back(build<VecA>(seq, fx, 0, 0, 1, j2));
+            va2.push_back(build<VecA>(seq, fx, 2 + v % 3, 24, 2, j3));
+            vb.push_back(build<VecB>(seq, fx, v % 2, 0, 0, j1));
         }
         // a default-constructed vector is one more representation of the logical empty vector (C18: comparison is well
         // defined on it)
